@@ -141,7 +141,17 @@ def run(ctx):
         "violation with the delta-debugged input as replay. Semantic and lowering diagnostics "
         "(DiagnosticsReporter::check on a one-file crate with the dev corelib) are exercised by a separate, smaller "
         "leg (h10sem: small corpus programs, one-round mutants, edge cases; panic / hang / death only); plugins "
-        "beyond the default suite and the language server are not exercised.",
+        "beyond the default suite and the language server are not exercised. "
+        "LONG TAIL, stated plainly: the error paths of semantic analysis and lowering are not panic-free and this "
+        "check does not claim they are. During construction the semantic leg was swept with 13 thorough runs "
+        "(seeds 1-3 and 21-29, about 31,000 texts each, roughly 400,000 texts: small corpus programs and test-data "
+        "sections <= 3 KB, one mutation each, plus the edge cases) and 10 distinct compiler panics were found "
+        "(F6-F15: salsa dependency cycles, unwrap on Err(DiagnosticAdded), unreachable! in lowering, a diagnostic "
+        "span past the end of the file); 6 were repaired in /repo, 4 salsa cycles (F7, F9, F12, F14) are listed "
+        "in known_findings.txt and reported as KNOWN-FINDING by the panicking query. Almost every new seed found "
+        "a new panic, so a seed not yet run may well find another one: a clean run of this leg means 'none in "
+        "the texts of this run' (see semantic_leg in the coverage), nothing more. The parser / formatter side was "
+        "swept with about 1.2 million texts (8 thorough runs) and has been clean since F1-F5, F1 being known.",
         common.TRUSTED,
         "make -C coq/Syntax && coqc coq/Props/C09.v (Print Assumptions); harness/target/debug/h10 out/C09/cases "
         "<tier> C09 -> coqc out/C09/cases/*.v",
